@@ -18,7 +18,8 @@ RULE = (
     "successor, delivery before pickup). Non-trivial = robustly infeasible corrupted candidate; distinct hash."
 )
 ASSUMPTIONS = [
-    "each candidate is checked as a batch of one (checkers assert over the whole batch)",
+    "each candidate is checked as a batch of one (checkers assert over the whole batch); in addition the complete "
+    "mask-generated batch and the batch with exactly one corrupted row are checked as batches",
     "any exception raised by the checker counts as rejection",
     "only the violation kinds named by the property are asserted in the 'must raise' direction",
     "SDVRP solutions that stay at the depot (depot -> depot) while demand remains are don't-care: the checker "
@@ -155,6 +156,59 @@ def execute(case, ctx):
                     ctx.nontriv({"c": case["env"], "i": insts[b], "cand": cand})
             else:
                 ctx.event(f"feasible:{name}:{op}")
+    # batch level: the checkers assert over the whole batch, so also (i) the complete mask-generated batch must be
+    # accepted when every row is robustly feasible and (ii) the batch with exactly one robustly infeasible row (the
+    # others unchanged) must be rejected
+    B = len(insts)
+    if B >= 2:
+        row_cls, row_v = [], []
+        for b in range(B):
+            v = judge_row(case, spec, insts[b], A[b].tolist())
+            names = {c for c, _ in v.viol}
+            c_ = v.robust_class(tau, exact)
+            if names - ASSERTED or (c_ == "feasible" and names):
+                c_ = "dont_care"
+            row_cls.append(c_)
+            row_v.append(v)
+        if all(c_ == "feasible" for c_ in row_cls):
+            try:
+                env.check_solution_validity(td0.clone(), A.clone())
+                raised = None
+            except Exception as e:
+                raised = type(e).__name__
+            ctx.event("batch:all_feasible")
+            if raised is not None:
+                ctx.violation(f"{name}|{sl}|checker_rejects_feasible|batch",
+                              f"checker raised {raised} on a batch of {B} feasible mask-generated solutions (each accepted alone)",
+                              {"actions": A.tolist(), "instances": insts})
+            # one corrupted row
+            T = A.shape[1]
+            for (op, i, j) in case["ops"][1:]:
+                b = (i + j) % B
+                cand = apply_op(op, A[b].tolist(), ep.finish_step(b), ep.masks[0][b].shape[0], depot_env, i, j)
+                if not cand or len(cand) > T or (len(cand) < T and not depot_env) or min(cand) < 0 \
+                        or max(cand) >= ep.masks[0][b].shape[0]:
+                    continue
+                cand = cand + [0] * (T - len(cand))
+                v = judge_row(case, spec, insts[b], cand)
+                names = {c for c, _ in v.viol}
+                robust = sorted(c for c, s_ in v.viol if c in ASSERTED and (s_ == float("-inf") or (s_ < 0 if c in exact else s_ <= -10 * tau)))
+                if v.robust_class(tau, exact) != "infeasible" or not robust or names - ASSERTED:
+                    continue
+                A2 = A.clone()
+                A2[b] = torch.tensor(cand)
+                try:
+                    env.check_solution_validity(td0.clone(), A2)
+                    raised = None
+                except Exception as e:
+                    raised = type(e).__name__
+                ctx.event("batch:one_infeasible_row")
+                if raised is None and run_checker(env, td0[b:b + 1], cand) is not None:
+                    # only alarm here when the row alone IS rejected: the batch composition hid the violation
+                    ctx.violation(f"{name}|{sl}|checker_accepts_infeasible|batch|{robust[0]}",
+                                  f"checker accepted a batch whose row {b} violates {v.viol[:2]} (that row alone is rejected)",
+                                  {"row": b, "candidate": cand, "actions": A2.tolist()})
+                break
     ctx.sample({"env": name, "cfg": cfg, "ops": case["ops"], "actions_row0": A[0].tolist()})
 
 
@@ -163,7 +217,7 @@ def cases(tier):
 
     @st.composite
     def c(draw):
-        case = draw(episode_cases(tier, ENVS, max_b=3))
+        case = draw(episode_cases(tier, ENVS, max_b=4))
         case["ops"] = [["identity", 0, 0]] + draw(st.lists(op, min_size=2, max_size=6))
         return case
     return c()
